@@ -94,6 +94,10 @@ def _post_factor(prog, ci, fn, loop, res):
         if isinstance(st, ast.Assign) and len(st.targets) == 1 and isinstance(st.targets[0], ast.Subscript) \
                 and isinstance(st.targets[0].slice, ast.Name) and st.targets[0].slice.id in perms and isinstance(st.targets[0].value, ast.Name):
             st = ast.copy_location(ast.Assign(targets=[ast.Name(id=st.targets[0].value.id, ctx=ast.Store())], value=st.value), st)
+        # any other store INTO the result (a mask, an index set, a slice) changes the value of some entries: not a factor
+        tg_ = st.targets if isinstance(st, ast.Assign) else [st.target] if isinstance(st, ast.AugAssign) else []
+        if any(isinstance(t_, ast.Subscript) and isinstance(t_.value, ast.Name) and t_.value.id == res for t_ in tg_):
+            return None
         stmts.append(ast.fix_missing_locations(Look().visit(st)))
     ex = Expander(prog, ci.module, ci)
     ex.opaque_self_attrs = {"norm"}
@@ -504,6 +508,30 @@ def _run_main(prog, tier):
             obs.append(struct_ob("region-provenance", qual(ci, fm), True, "", REL, fm.lineno))
 
     obs.extend(_region_lookup(prog))
+    # the estimator is built from the sample itself: self.sample is the SORTED input, every value kept with its multiplicity
+    rzi = Resolver(init, prog, ci.module, ci)
+    sdefs = [st for st in ast.walk(init) if isinstance(st, ast.Assign) and len(st.targets) == 1 and U(st.targets[0]) == "self.sample"]
+    oks, whys = False, "self.sample is not assigned exactly once"
+    if len(sdefs) == 1:
+        t_ = rzi.term(sdefs[0].value, sdefs[0])
+        sorted_seen = False
+        e_ = t_
+        while True:
+            if isinstance(e_, ast.Call) and U(e_.func) in ("sort", "sorted") and e_.args and not [k for k in e_.keywords if k.arg not in ("axis", "kind")]:
+                sorted_seen, e_ = True, e_.args[0]
+            elif isinstance(e_, ast.Call) and U(e_.func) in ("array", "asarray", "atleast_1d", "ravel", "squeeze") and e_.args:
+                e_ = e_.args[0]
+            elif isinstance(e_, ast.Call) and isinstance(e_.func, ast.Attribute) and e_.func.attr in ("flatten", "ravel", "squeeze", "copy", "astype") \
+                    and (not e_.args or e_.func.attr == "astype"):
+                e_ = e_.func.value
+            else:
+                break
+        pname_ = init.args.args[1].arg
+        oks = sorted_seen and isinstance(e_, ast.Name) and e_.id == pname_
+        whys = f"self.sample = `{U(t_)[:120]}`"
+    obs.append(struct_ob("sample-stays-sorted", qual(ci, init) + "[definition]", oks,
+                         "self.sample must be the sorted, flattened input with every value kept (no de-duplication, selection or "
+                         "re-weighting): " + whys, REL, init.lineno, tier="F"))
 
     # ---------------------------------------------------------------- truncation bound
     anf.reset()
